@@ -45,6 +45,15 @@ CLAIMED = {
         "Token accounting treats attribute values as opaque text and cv/storage words as idempotent. 36 unvalidated-YAML/attribute call sites are listed as known findings.",
         "DESIGN.md section 3 C17",
     ),
+    "C07": (
+        "explicit-state exploration of in-process run histories (all sequences to depth 3/4 over colliding libraries) with canonical registry-state hashing; byte equality with fresh-process output; exhaustive small sets for seeds/cwd/env/dirty outdir/patched clock",
+        "Every sequence of main_with_args runs up to depth 3 (quick: 258 histories over 6 libraries; thorough: depth 3 over 16 libraries plus depth 4 over the core, 5.6k histories) "
+        "executes in one interpreter; after each history the process-wide registries (type table, statement tables, helper tables, destructor tables) are hashed into a canonical "
+        "state and the last run's output directory must be byte-identical to the same library generated by a fresh interpreter. Each library is also generated under nine hash "
+        "seeds, absolute paths from two directories, two environments, a pre-populated output directory and two patched clocks/hosts/pids; all outputs must be identical.",
+        "Nine PYTHONHASHSEED values, not all; .log/.json debug dumps excluded; setup.py (embeds the output path) compared only between runs given the same relative path.",
+        "DESIGN.md section 3 C07",
+    ),
 }
 
 PENDING_REASON = "check not built yet in this round (planned, see DESIGN.md section 8); not claimed until it runs"
